@@ -117,13 +117,44 @@ def run(ctx):
     # thread target
     target = None
     init = cas.methods['__init__']
-    for n in ast.walk(init.node):
-        if isinstance(n, ast.Call) and norm(n.func).endswith('Thread'):
-            for k in n.keywords:
-                if k.arg == 'target' and self_attr(k.value):
-                    target = cas.lookup(self_attr(k.value))
+    thread_sites = []
+    for m_ in cas.methods.values():
+        for n in ast.walk(m_.node):
+            if isinstance(n, ast.Call) and norm(n.func).endswith('Thread'):
+                for k in n.keywords:
+                    if k.arg == 'target' and self_attr(k.value):
+                        target = cas.lookup(self_attr(k.value))
+                        thread_sites.append((m_, n))
     if target is None:
         raise AnalysisError('anchor-lost role=flusher thread target')
+    # one flusher per cassette: the thread object is made once, by the constructor (Thread.start() refuses a second start); a thread made
+    # per start() / per call lets two flushers apply batches concurrently (order across batches is lost, close() joins only the last)
+    ch12 = res.clause('C12.h', 'R-TYPESTATE', 'one flusher thread per cassette, created by the constructor', floor=1)
+    outside = [(m_, n) for m_, n in thread_sites if m_.name != '__init__']
+    ch12.instance('flusher thread created in the constructor only (%d creation site(s))' % len(thread_sites), cas.name, not outside)
+    for m_, n in outside[:1]:
+        res.add(Finding('C12', 'C12.h', 'R-TYPESTATE', m_.file, m_.qualname, n.lineno, norm(n)[:100],
+                        '%s creates a flusher thread: every call adds another thread that swaps and applies batches - two of them run their batches '
+                        'concurrently (writes and the save of one recording are applied out of request order) and close() joins only the last one' % m_.qualname))
+    # state of one cassette is its own: no mutable object bound at class level and filled through the instance
+    shared_cls = []
+    for k_ in (cas, rec):
+        inits = {self_attr(t) for n in ast.walk(k_.methods['__init__'].node) if isinstance(n, ast.Assign) for t in n.targets if self_attr(t)} if '__init__' in k_.methods else set()
+        for st_ in k_.node.body:
+            if isinstance(st_, ast.Assign) and len(st_.targets) == 1 and isinstance(st_.targets[0], ast.Name):
+                v = st_.value
+                mutable = isinstance(v, (ast.List, ast.Dict, ast.Set)) or (isinstance(v, ast.Call) and isinstance(v.func, ast.Name) and
+                                                                          v.func.id in ('list', 'dict', 'set', 'deque', 'defaultdict', 'OrderedDict', 'Counter'))
+                if mutable and st_.targets[0].id not in inits:
+                    nm_ = st_.targets[0].id
+                    used = any(isinstance(x, ast.Attribute) and self_attr(x) == nm_ for m2 in k_.methods.values() for x in ast.walk(m2.node))
+                    if used:
+                        shared_cls.append((k_, st_, nm_))
+    ch12.instance('no mutable class-level attribute serves as per-cassette state', cas.name, not shared_cls)
+    for k_, st_, nm_ in shared_cls[:1]:
+        res.add(Finding('C12', 'C12.h', 'R-TYPESTATE', k_.module.relpath, k_.name, st_.lineno, norm(st_)[:100],
+                        '`%s` is one object shared by every %s until an instance rebinds it: operations enqueued on one cassette are applied by '
+                        'another cassette\'s flusher (or by both)' % (nm_, k_.name)))
 
     def reach(m, seen):
         if m in seen:
